@@ -35,13 +35,21 @@ def _setup_mem(d):
     ]
     mm = synth.machine_model(
         "x86", ports, forms, arch_code="SYNMEM",
+        # a row of its own for the base-only shape (the default applies to all other shapes)
+        load_throughput=[{"base": "gpr", "index": None, "offset": None, "scale": 1,
+                          "port_pressure": [[1, ["B"]]]}],
         load_throughput_default=[[1, ["B", "C"]]],
         store_throughput_default=[[1, ["C"]], [1, ["A", "C"]]],
         load_throughput_multiplier={"gpr": 1.0, "xmm": 2.0, "ymm": 2.0},
         store_throughput_multiplier={"gpr": 1.0, "xmm": 1.0, "ymm": 2.0},
     )
     path = synth.write(d + "/syn_mem.yml", mm)
-    isa = d + "/isa_empty_x86.yml"
+    # the ISA database only says that 'add gpr, mem' reads and writes its memory operand
+    isa = synth.write(d + "/isa_mem_x86.yml", synth.isa_db("x86", [
+        {"name": "add", "operands": [
+            {"class": "register", "name": "gpr", "source": True, "destination": False},
+            {"class": "memory", "base": "*", "offset": "*", "index": "*", "scale": "*",
+             "source": True, "destination": True}]}]))
     m = drive.MachineModel(path_to_yaml=path)
     sem = drive.ArchSemantics(m, path_to_yaml=isa)
     from osaca.frontend import Frontend
@@ -51,12 +59,15 @@ def _setup_mem(d):
 
 MEM_INSTR = {
     # text -> expected scaled micro-ops (reference: register form ++ multiplier x data uops)
-    "vaddpd (%rax), %xmm1, %xmm2": [[1, ["A", "B"]], [2.0, ["B", "C"]]],
+    "vaddpd (%rax), %xmm1, %xmm2": [[1, ["A", "B"]], [2.0, ["B"]]],
     "vaddpd %xmm0, %xmm1, %xmm2": [[1, ["A", "B"]]],
     "addq 8(%rax,%rcx,8), %rbx": [[1, ["A", "B", "C"]], [1.0, ["B", "C"]]],
     "addq %rbx, %rcx": [[1, ["A", "B", "C"]]],
     "vmovapd %ymm1, (%rax)": [[1, ["A"]], [2.0, ["C"]], [2.0, ["A", "C"]]],
-    "vmovapd (%rax), %ymm1": [[1, ["A"]], [2.0, ["B", "C"]]],
+    "vmovapd (%rax), %ymm1": [[1, ["A"]], [2.0, ["B"]]],
+    "vmovapd 8(%rax), %ymm1": [[1, ["A"]], [2.0, ["B", "C"]]],
+    # read-modify-write: register form ++ load row ++ store rows
+    "addq %rbx, (%rax)": [[1, ["A", "B", "C"]], [1.0, ["B"]], [1.0, ["C"]], [1.0, ["A", "C"]]],
 }
 
 
